@@ -167,7 +167,30 @@ func initPackages(prog *ssa.Program) []*ssa.Package {
 		}
 	}
 	sort.Slice(r, func(i, j int) bool { return r[i].Pkg.Path() < r[j].Pkg.Path() })
-	return r
+	// dependency order: a package's initialisers run after those of the packages it imports
+	byPath := map[string]*ssa.Package{}
+	for _, p := range r {
+		byPath[p.Pkg.Path()] = p
+	}
+	var out []*ssa.Package
+	done := map[string]bool{}
+	var visit func(p *types.Package)
+	visit = func(p *types.Package) {
+		if done[p.Path()] {
+			return
+		}
+		done[p.Path()] = true
+		for _, imp := range p.Imports() {
+			visit(imp)
+		}
+		if sp := byPath[p.Path()]; sp != nil {
+			out = append(out, sp)
+		}
+	}
+	for _, p := range r {
+		visit(p.Pkg)
+	}
+	return out
 }
 
 func newInterp(l *loaded, tier string, solverTimeout int) (*Interp, error) {
@@ -191,6 +214,7 @@ func (in *Interp) resetPath() {
 	in.observes = map[string]*Term{}
 	in.nameCtr = map[string]int{}
 	in.allocLimit = 0
+	in.allocCut = false
 	in.threads = nil
 	in.cur = nil
 	in.atomic = 0
@@ -199,6 +223,8 @@ func (in *Interp) resetPath() {
 	in.chanSeq = 0
 	in.hook = map[string]value{}
 	in.clockLast = nil
+	in.blobs = map[int]*jsonBlob{}
+	in.blobSeq = 0
 	in.loopSpecs = map[string]*loopSpec{}
 	in.loopPost = map[string]value{}
 	in.regexps = map[*value]string{}
@@ -218,10 +244,33 @@ func (in *Interp) resetPath() {
 }
 
 // initGlobals runs the selected packages' variable initialisers (concretely).
+// packages whose globals are immutable tables: initialised once per interpreter and shared
+// by all paths
+var frozenPkgs = map[string]bool{"unicode/utf8": true, "strconv": true, "encoding/hex": true}
+
 func (in *Interp) initGlobals() {
 	saved := in.h.Funcs
 	in.h.Funcs = map[string]bool{}
+	if in.frozen == nil {
+		in.frozen = map[*ssa.Global]*value{}
+		keep := in.globals
+		in.globals = map[*ssa.Global]*value{}
+		for _, p := range in.prog.AllPackages() {
+			if frozenPkgs[p.Pkg.Path()] {
+				in.runPkgInit(p)
+			}
+		}
+		in.frozen = in.globals
+		in.globals = keep
+		in.steps = 0
+	}
+	for g, c := range in.frozen {
+		in.globals[g] = c
+	}
 	for _, p := range in.initPkgs {
+		if frozenPkgs[p.Pkg.Path()] {
+			continue
+		}
 		s0 := in.steps
 		in.runPkgInit(p)
 		if os.Getenv("VERIF_INITSTEPS") != "" && in.h.Paths == 0 {
